@@ -26,10 +26,10 @@ theorem interpNth_serPos (ext : Ext) (dt : DataType) (nb : Bool) (md : Metadata)
     simp only [serPos, interpNth, nthTV]
     exact interpNth_serPos ext dt nb md ts vs k
 
-/-- every component satisfies `interp_ser` at its own traced field -/
+/-- every component satisfies `interp_serO` (option-dependent logical value `lvO o`) at its own traced field -/
 def EachOkPos (ext : Ext) (o : TraceOpts) : Tys → Vals → Prop
   | .cons t rest, .cons v vrest =>
-    (∀ dt nb0 md, mappingDT o t = (dt, nb0, md) → interpDT ext dt nb0 md (ser t v) = .ok (lv t v)) ∧ EachOkPos ext o rest vrest
+    (∀ dt nb0 md, mappingDT o t = (dt, nb0, md) → interpDT ext dt nb0 md (ser t v) = .ok (lvO o t v)) ∧ EachOkPos ext o rest vrest
   | _, _ => True
 
 /-- one step of `structOf` for a positional presentation -/
@@ -46,8 +46,8 @@ theorem structOf_pos_eq (ext : Ext) (fs : Fields) (xs : SVals) :
 theorem mapM_tuple (ext : Ext) (o : TraceOpts) (tsAll : Tys) (vsAll : Vals) :
     ∀ (ts2 : Tys) (vs2 : Vals) (i : Nat), wtPos ts2 vs2 = true →
     (∀ j, nthTV tsAll vsAll (i + j) = nthTV ts2 vs2 j) → i + ts2.length ≤ tsAll.length → EachOkPos ext o ts2 vs2 →
-    (mappingPos o i ts2).toList.mapM (stepP ext (posNames 0 tsAll.length) (serPos tsAll vsAll)) = .ok (lvPos i ts2 vs2).toList
-  | .nil, .nil, i, _, _, _, _ => by simp [mappingPos, Fields.toList, lvPos, LFields.toList, pure, Except.pure]
+    (mappingPos o i ts2).toList.mapM (stepP ext (posNames 0 tsAll.length) (serPos tsAll vsAll)) = .ok (lvOPos o i ts2 vs2).toList
+  | .nil, .nil, i, _, _, _, _ => by simp [mappingPos, Fields.toList, lvOPos, LFields.toList, pure, Except.pure]
   | .nil, .cons _ _, _, hw, _, _, _ => by simp [wtPos] at hw
   | .cons _ _, .nil, _, hw, _, _, _ => by simp [wtPos] at hw
   | .cons t rest, .cons v vrest, i, hw, hsuf, hlen, heach => by
@@ -62,16 +62,17 @@ theorem mapM_tuple (ext : Ext) (o : TraceOpts) (tsAll : Tys) (vsAll : Vals) :
     have hint := interpNth_serPos ext dt nb0 md tsAll vsAll i
     rw [hnth] at hint
     simp only [hev dt nb0 md hm] at hint
-    simp only [mappingPos, hm, Fields.toList, List.mapM_cons, ih, lvPos, LFields.toList]
+    simp only [mappingPos, hm, Fields.toList, List.mapM_cons, ih, lvOPos, LFields.toList]
     simp [stepP, Field.name, Field.dataType, Field.nullable, Field.metadata, hidx, hint, pickOne,
       bind, Except.bind, pure, Except.pure]
 
-/-- a serialized tuple of well-typed components, at the Struct its type is traced to, is the struct of the logical values -/
+/-- a serialized tuple of well-typed components, at the Struct its type is traced to, is the struct of the
+(option-dependent) logical values `lvOPos o` -/
 theorem interp_tuple (ext : Ext) (o : TraceOpts) (ts : Tys) (vs : Vals) (hw : wtPos ts vs = true)
     (heach : EachOkPos ext o ts vs) :
     structOf (mappingPos o 0 ts).toList (fun f => interpNth ext f.dataType f.nullable f.metadata
         (indexOfName ((mappingPos o 0 ts).toList.map Field.name) f.name |>.getD 0) (serPos ts vs)) =
-      .ok (.struct (LFields.ofList (lvPos 0 ts vs).toList)) := by
+      .ok (.struct (LFields.ofList (lvOPos o 0 ts vs).toList)) := by
   rw [structOf_pos_eq, mappingPos_names,
     mapM_tuple ext o ts vs ts vs 0 hw (fun j => by simp) (by omega) heach]
   rfl
